@@ -41,7 +41,7 @@ def absorb(ctx, r, events, what, viol_sig=None, expect_summary=True):
         t = ev.get("t")
         if t == "violation":
             sig = {"oracle": ev.get("oracle", ""), "class": ev.get("class", "")}
-            for k in ("item", "schema", "variant", "format", "config"):
+            for k in ("item", "schema", "variant", "format", "config", "shape"):
                 if k in ev:
                     sig[k] = ev[k]
             if viol_sig:
